@@ -373,8 +373,14 @@ impl SimPair {
     pub fn new(sc: &PairScenario) -> Self {
         uflow::verif::time::set_ns(0);
         uflow::verif::rand::seed(sc.seed);
-        let a = HalfConnection::new(sc.hc_config(0));
-        let b = HalfConnection::new(sc.hc_config(1));
+        let mut a = HalfConnection::new(sc.hc_config(0));
+        let mut b = HalfConnection::new(sc.hc_config(1));
+        // one scenario in eight: connections that have been stepped almost 2^32 times already (the step counter, which
+        // stamps TimeSensitive packets, comes round during the history)
+        if sc.seed % 8 == 3 {
+            a.verif_preset_step_count(u32::MAX - ((sc.seed >> 16) % 200) as u32);
+            b.verif_preset_step_count(u32::MAX - ((sc.seed >> 24) % 200) as u32);
+        }
         SimPair {
             hc: [a, b],
             now_us: 0,
